@@ -49,9 +49,9 @@ type caseData struct {
 	Limit  int   `json:"limit,omitempty"` // max schedules in this subtree
 	// rand / race / lin
 	RSeed int64 `json:"rseed,omitempty"`
-	N     int   `json:"n,omitempty"`  // schedules | repetitions | histories
-	G     int   `json:"g,omitempty"`  // goroutines / clients
-	M     int   `json:"m,omitempty"`  // ops per goroutine / client
+	N     int   `json:"n,omitempty"` // schedules | repetitions | histories
+	G     int   `json:"g,omitempty"` // goroutines / clients
+	M     int   `json:"m,omitempty"` // ops per goroutine / client
 	Keys  int   `json:"keys,omitempty"`
 	Lists bool  `json:"lists,omitempty"` // lin: include List/Query (unpartitioned model)
 }
@@ -110,7 +110,7 @@ func genCases(seed int64, tier string) []core.Case {
 				// small trees are enumerated completely in both tiers; the at-the-limit scenarios (in
 				// which both ops proceed on the unchanged tree, so the tree has millions of leaves)
 				// are preemption-bounded
-				bound, k, limit, n := -1, 2, 600, 12
+				bound, k, limit, n := -1, 2, 350, 12
 				if sc.Big {
 					bound, k, limit = 2, 3, 300
 				}
@@ -209,6 +209,8 @@ func runSchedules(res *core.Result, d caseData, verbose bool) {
 		res.Evals++
 		res.Stat("schedules_executed", 1)
 		res.Stat(fmt.Sprintf("schedules_%dop", len(d.Scen.Ops)), 1)
+		res.Stat("schedules_of["+d.Scen.Name+"]", 1)
+		res.Stat("schedules_on_"+d.Driver, 1)
 		if x.multi > 0 {
 			res.Stat("multi_outstanding_calls", int64(x.multi))
 		}
